@@ -211,6 +211,9 @@ class Interp:
                 if any(isinstance(k, ClassInfo) and k.name == "BaseState" for k in self.prog.mro(c)):
                     if field != "state":
                         slots[field] = c
+        if not slots:
+            # no state object found in the constructor chain: every trigger context would come out empty and the rules would judge nothing
+            raise AnalysisError("anchor vanished: the constructor chain of %s stores no state object (subclass of BaseState)" % self.proto.qual)
         self.state_slots = slots
         # stable part of the heap: single-assignment fields
         stable = {}
